@@ -54,7 +54,7 @@ def default_cut(data: bytes, mss=1460):
     return [data[i:i + mss] for i in range(0, len(data), mss)] or []
 
 
-def tcp_packets(conn_id, sends, isn=(0x10000000, 0x20000000), cutter=None, handshake=True, mss=1460):
+def tcp_packets(conn_id, sends, isn=(0x10000000, 0x20000000), cutter=None, handshake=True, mss=1460, fin="none"):
     """sends: list of (dir, bytes).  Every send is cut into segments by `cutter(dir, index, data)`
     (default: at MSS).  Returns list of Pkt with absolute sequence numbers (mod 2^32) and the
     stream offsets each covers."""
@@ -76,6 +76,16 @@ def tcp_packets(conn_id, sends, isn=(0x10000000, 0x20000000), cutter=None, hands
             ack = (isn_[o] + 1 + nxt[o]) & 0xFFFFFFFF
             pk.append(Pkt(conn_id, d, "tcp", part, seq, ack, 0x18, nxt[d], nxt[d] + len(part)))
             nxt[d] += len(part)
+    if fin == "on_last_data":
+        # each side closes right after its last write: the FIN flag rides on its last data segment (PSH|ACK|FIN)
+        for d in ("c", "s"):
+            last = [p for p in pk if p.dir == d and p.payload]
+            if last:
+                last[-1].flags = 0x19
+    elif fin == "separate":
+        for d in ("c", "s"):
+            o = "s" if d == "c" else "c"
+            pk.append(Pkt(conn_id, d, "tcp", b"", (isn_[d] + 1 + nxt[d]) & 0xFFFFFFFF, (isn_[o] + 1 + nxt[o]) & 0xFFFFFFFF, 0x11, tag="fin"))
     return pk
 
 
